@@ -465,6 +465,29 @@ func c03AltPrefix(c *Ctx, p *Prog) {
 		return
 	}
 	c.Check(len(setters) == 1 && setters[0] == collect.Name(), "C03-R6", "alt-prefix:set-by-collect-loop", p.pos(collect.Pos()), fmt.Sprintf("t.escaped = true in %v", setters))
+	// the flag is never dropped silently: every store of false is behind a test of the flag (where
+	// the Alt modifier is applied); an unconditional clear loses Alt+Esc on the expiry path
+	for _, fn := range p.modFns {
+		if fn.Pkg != p.Tcell {
+			continue
+		}
+		for _, st := range storesTo(fn, "tcell.tScreen", "escaped") {
+			if b, ok := constBool(st.Val); !ok || b {
+				continue
+			}
+			tested := false
+			for _, g := range rawGuardsAt(st.Block()) {
+				if ld, ok := g.Cond.(*ssa.UnOp); ok && g.Positive {
+					if ref, _, ok := fieldAddrRef(ld.X); ok && ref.Name == "escaped" {
+						tested = true
+					}
+				}
+			}
+			if !tested {
+				c.Fail("C03-R6", "alt-prefix:"+fn.Name()+":cleared-only-when-applied", p.pos(st.Pos()), "t.escaped is reset without having been tested: a pending Alt prefix is discarded")
+			}
+		}
+	}
 	for _, want := range []string{"parseRune", "parseFunctionKey"} {
 		fn := p.Fn("tcell:(*tScreen)." + want)
 		ok := false
